@@ -973,6 +973,9 @@ func (as *AbacoSource) readerMainLoop() {
 	ticker := time.NewTicker(as.readPeriod)
 	defer ticker.Stop()
 	as.lastread = time.Now()
+	// Frames and bytes filled in for missing packets but not yet reported with a buffer.
+	var droppedFrames int
+	var droppedBytes int
 
 awaitmoredata:
 	for {
@@ -989,8 +992,6 @@ awaitmoredata:
 		case <-ticker.C:
 			// read from the UDP port or ring buffer
 			var lastSampleTime time.Time
-			var droppedFrames int
-			var droppedBytes int
 			for _, pp := range as.producers {
 				allPackets, err := pp.ReadAllPackets()
 				lastSampleTime = time.Now()
@@ -1080,6 +1081,8 @@ awaitmoredata:
 				droppedBytes:   droppedBytes,
 				droppedFrames:  droppedFrames,
 			}
+			droppedFrames = 0
+			droppedBytes = 0
 			if bytesProcessed > 0 {
 				timeout.Reset(timeoutPeriod)
 			}
